@@ -317,9 +317,24 @@ func c15Bulk(c *core.Ctx) {
 			continue
 		}
 		v := core.VarOf(info, a)
-		perIter := v != nil && loop.Body.Pos() <= v.Pos() && v.Pos() <= loop.Body.End() && !(worker.Pos() <= v.Pos() && v.Pos() <= worker.End())
+		// a parameter of the worker literal stands for the argument given at the go statement
+		if fl, isLit := worker.Call.Fun.(*ast.FuncLit); isLit && v != nil {
+			pi := 0
+			for _, fld := range fl.Type.Params.List {
+				for _, nm := range fld.Names {
+					if info.Defs[nm] == types.Object(v) && pi < len(worker.Call.Args) {
+						if av := core.VarOf(info, worker.Call.Args[pi]); av != nil {
+							v = av
+						}
+					}
+					pi++
+				}
+			}
+		}
+		vpos := core.DefPosIn(info, fd.Decl.Body, v)
+		perIter := v != nil && loop.Body.Pos() <= vpos && vpos <= loop.Body.End() && !(worker.Pos() <= vpos && vpos <= worker.End())
 		// a parameter of the worker closure bound at the go statement is fine too
-		if !perIter && v != nil && worker.Pos() <= v.Pos() && v.Pos() <= worker.End() {
+		if !perIter && v != nil && worker.Pos() <= vpos && vpos <= worker.End() {
 			perIter = true
 		}
 		c.Ob("C15-R3", fmt.Sprintf("%s#per-iteration:%s", fd.Name(), psig.Params().At(i).Name()), a.Pos(), perIter,
